@@ -184,6 +184,7 @@ type bpipe struct {
 	failAt  int            // 1-based index of the Write call that fails (0 = never)
 	cut     int            // reader is cut after this many bytes (-1 = never)
 	cutErr  error          // error to report at the cut (nil = io.EOF)
+	cutHit  bool           // a Read has reported the cut
 }
 
 func newBpipe() *bpipe {
@@ -227,6 +228,7 @@ func (p *bpipe) Read(b []byte) (int, error) {
 			return 0, io.ErrClosedPipe
 		}
 		if p.cut >= 0 && p.nread >= p.cut {
+			p.cutHit = true
 			if p.cutErr != nil {
 				return 0, p.cutErr
 			}
@@ -270,6 +272,12 @@ func (p *bpipe) CloseRead() {
 	p.rclosed = true
 	p.cond.Broadcast()
 	p.mu.Unlock()
+}
+
+func (p *bpipe) wasCut() bool {
+	p.mu.Lock()
+	defer p.mu.Unlock()
+	return p.cutHit
 }
 
 func (p *bpipe) setCut(n int, err error) {
